@@ -578,7 +578,7 @@ func checkC16(r *Run) {
 			return &descgen.Entry{Name: "plain16", File: f, Cfg: c}
 		}
 		g := grp{name: "plain16"}
-		for k, what := range []string{"all-yaml", "all-cli/no-config-param", "all-cli/comment-only-file", "all-cli/blank-file", "all-yaml/anchors-and-aliases"} {
+		for k, what := range []string{"all-yaml", "all-cli/no-config-param", "all-cli/comment-only-file", "all-cli/blank-file", "all-yaml/anchors-and-aliases", "all-yaml/list-parameters-without-value"} {
 			e := mkPlain()
 			c := caseFrom(e)
 			c.NoWrite = true
@@ -596,6 +596,9 @@ func checkC16(r *Run) {
 				c.Delivery.Blank = "\n"
 			case 4:
 				c.Delivery.Anchors = true
+			case 5:
+				// a list parameter that is present but empty leaves the YAML list in force
+				c.Delivery.Extra = []string{"exclude_fields=", "computed_fields=", "required_fields=", "sensitive=", "types="}
 			}
 			c.Tags = append(c.Tags, what)
 			g.cases = append(g.cases, c)
@@ -709,6 +712,8 @@ func checkC16(r *Run) {
 	}
 	mkErr("no-types-no-config", "sort=true", nil)
 	mkErr("no-types-empty-param", "", nil)
+	mkErr("types-parameter-without-value", "types=", nil)
+	mkErr("types-parameter-without-value-and-sort", "sort=true,types=", nil)
 	mkErr("missing-file", "types=User,config=$CFG/does-not-exist.yaml", nil)
 	mkErr("directory-instead-of-file", "types=User,config=$CFG", nil)
 	mkErr("unparsable-yaml", "types=User,config=$CFG/broken.yaml", func(dir string) {
